@@ -56,6 +56,16 @@ Proof.
   split; [now apply in_map|]. rewrite at_or_under_below by (apply good_root_spec, Hgood, Hx). exact Ht.
 Qed.
 
+(* what excludes a failing umount(2): well-formed parent ids (no EBUSY) and no line at or below a
+   build root that a later line covers (no hidden mountpoint) *)
+Definition uok (T : list kline) : bool := pwf T && nocov (fun k => in_roots roots (k_mp k)) T.
+
+Lemma dels_uok P a b0 : dels P a b0 -> uok a = true -> uok b0 = true.
+Proof.
+  unfold uok. intros D H. apply andb_true_iff in H as [H1 H2]. apply andb_true_iff.
+  split; [eapply dels_pwf; eauto|eapply dels_nocov; eauto].
+Qed.
+
 (* ------------------------------------------------------------------ owners *)
 Lemma owner_of x t : In x m -> at_or_below (build_path c x) t = true -> C03.owner c m t = l_name x.
 Proof.
@@ -159,7 +169,7 @@ Definition step_calls (s : mst) (x : layer) (ks' : kstate) (iss : list bytes) : 
   /\ (iss <> [] -> overlain0 (ks_tab (w_ks (s_w s))) (build_path c x) = false).
 
 (* one layer of the loop: either the loop goes on, or a call failed (impossible with
-   well-formed parent ids) *)
+   well-formed parent ids and no covered line below a build root) *)
 Lemma heavy_step n rest done ld busy s x :
   In x m -> l_name x = n -> ~ In n done ->
   Forall2 (RL done (ks_tab (w_ks (s_w s)))) m (ld_map ld) -> KI done (ks_tab (w_ks (s_w s))) ->
@@ -172,7 +182,7 @@ Lemma heavy_step n rest done ld busy s x :
         \/ (busy' = busy /\ usersb x = false /\ nothing_below (ks_tab ks') x)))
   \/ (exists ks' iss,
         um_go e c (n :: rest) ld busy s = (Fail, st_after e s ks' iss)
-        /\ step_calls s x ks' iss /\ iss <> [] /\ pwf (ks_tab (w_ks (s_w s))) <> true).
+        /\ step_calls s x ks' iss /\ iss <> [] /\ uok (ks_tab (w_ks (s_w s))) <> true).
 Proof.
   intros Hx Hxn Hnd HF HK. set (T := ks_tab (w_ks (s_w s))) in *.
   destruct HK as (Kwf & Kid & Kin & Kfl).
@@ -224,7 +234,10 @@ Proof.
     eapply kmounts0_below; eauto. }
   destruct ok.
   2:{ right. exists ks', iss. split; [reflexivity|]. split; [exact Hcalls|]. split; [now apply Hnok|].
-      intros Hp0. specialize (Hpw Hp0). discriminate. }
+      intros Hp0. unfold uok in Hp0. apply andb_true_iff in Hp0 as [Hp0 Hc0].
+      assert (Hc1 : nocov (fun k => at_or_below (build_path c x) (k_mp k)) (ks_tab (w_ks (s_w s))) = true).
+      { eapply nocov_mono; [|exact Hc0]. intros k Hk0. now apply (in_roots_below x). }
+      specialize (Hpw Hp0 Hc1). discriminate. }
   left. destruct (Hok eq_refl) as [Hiss Hrem].
   destruct (after_unmount_some c (w_fs (s_w s)) (ks_tab ks') ld n l Hg) as (r & Ea). rewrite Ea.
   destruct (after_unmount_spec _ _ _ _ _ _ Ea) as (l1 & Hg1 & ->). cbn [snd].
@@ -292,7 +305,7 @@ Lemma heavy_loop : forall names done ld busy s,
   exists o ks' iss sub,
     um_go e c names ld busy s = (o, st_after e s ks' iss)
     /\ loop_calls names s ks' iss sub
-    /\ ((o = Fail /\ pwf (ks_tab (w_ks (s_w s))) <> true)
+    /\ ((o = Fail /\ uok (ks_tab (w_ks (s_w s))) <> true)
         \/ exists b' ld', o = Ret (b', ld') /\ loop_end names busy b' ks').
 Proof.
   induction names as [|n rest IH]; intros done ld busy s ND HS Hnames HF HK.
@@ -347,7 +360,7 @@ Proof.
       intros t Ht. apply in_app_or in Ht as [Ht|Ht]; [|now apply O2].
       apply (Hov_keep iss1 Ht1 Hov1); [|exact Ht]. intros k Hk. eapply dels_in; eauto. }
     destruct Hout as [(Eo & Hpw2)|(b' & ld' & Eo & Ha & Hb)].
-    { left. split; [exact Eo|]. intros Hp0. apply Hpw2. eapply dels_pwf; eauto. }
+    { left. split; [exact Eo|]. intros Hp0. apply Hpw2. eapply dels_uok; eauto. }
     right. exists b', ld'. split; [exact Eo|]. split.
     + intros Eb. destruct (Ha Eb) as [Hb1 Hrest].
       destruct Hst as [(Hb' & _)|(Hb' & Hux)]; [congruence|].
@@ -432,7 +445,7 @@ Definition C03_all_safe_hyp (c : cfgT) (w : wobs) : bool :=
 Definition C03_all_hyp (c : cfgT) (w : wobs) : bool :=
   let m := layers_on_disk c (wo_fs w) in
   let tab := ks_tab (wo_ks w) in
-  C03_all_safe_hyp c w && pwf tab && dirs_noslash c && ovl_placed c m tab.
+  C03_all_safe_hyp c w && uok c m tab && dirs_noslash c && ovl_placed c m tab.
 
 (* ------------------------------------------------------------------ the loop from the initial world *)
 Section FromWorld.
@@ -458,7 +471,7 @@ Lemma all_loop ord : normalize_order m = Some ord ->
   /\ exists o ks' iss sub,
        um_go e c (rev (ld_order ld)) ld false s0 = (o, st_after e s0 ks' iss)
        /\ loop_calls c m (rev ord) s0 ks' iss sub
-       /\ ((o = Fail /\ pwf tab <> true)
+       /\ ((o = Fail /\ uok c m tab <> true)
            \/ exists b' ld', o = Ret (b', ld') /\ loop_end c um m tab (rev ord) false b' ks').
 Proof.
   intros Hn ld. destruct safe_hyp_parts as (Hwf & NDi & NDn & Hgood & Hap).
@@ -605,4 +618,14 @@ Proof.
   intros c w e um n all Hh. destruct (plain_env e) eqn:He; [now apply C03_model_proof|].
   destruct (view_fields c w e (CUmount n all) um) as (E1 & E2 & _).
   unfold C03.step_spec. rewrite E1, E2, He. reflexivity.
+Qed.
+
+(* the known-finding class of Cases/C03.v is the negation of the covered-line hypothesis *)
+Lemma kf_class : forall c w v, v_cmd v = CUmount [] true -> plain_env (v_env v) = true ->
+  v_res v = RFail -> C03.step_kf c w v = 0%N ->
+  nocov (fun k => in_roots (roots c (layers_on_disk c (wo_fs w))) (k_mp k)) (ks_tab (wo_ks w)) = true.
+Proof.
+  intros c w v E1 E2 E3. unfold C03.step_kf, C03.covered_below. rewrite E1, E2, E3. cbn [rclass_beq andb].
+  unfold in_roots, roots.
+  destruct (nocov _ _); [reflexivity|]. cbn [negb]. discriminate.
 Qed.
